@@ -1006,7 +1006,7 @@ func c10r6(r *R) {
 		})
 		sa := describe(settingsCall.Common().Args[1])
 		good = uncond && strings.HasPrefix(sa, "local:settings") || uncond && sa != ""
-		guard := guardedBy(settingsCall.Block(), func(s string) bool { return strings.Contains(s, "ForeachSetting") && strings.HasSuffix(s, "== nil)") })
+		guard := guardedBy(settingsCall.Block(), func(s string) bool { return strings.Contains(s, "ForeachSetting") && strings.HasPrefix(s, "!") && strings.HasSuffix(s, "!= nil)") })
 		good = good && guard
 		// ... and by nothing else: a further condition (number of settings, values) would swallow some SETTINGS frames,
 		// and the peer would wait for an acknowledgement that never comes
@@ -1287,7 +1287,11 @@ func contField(r *R, typ string) string {
 	var names []string
 	for i := 0; i < st.NumFields(); i++ {
 		if st.Field(i).Type().String() == typ {
-			names = append(names, st.Field(i).Name())
+			n := st.Field(i).Name()
+			if old, ok := curRenames.fieldAlias[st.Field(i)]; ok {
+				n = old // printed terms use the reference spelling
+			}
+			names = append(names, n)
 		}
 	}
 	if len(names) != 1 {
